@@ -27,6 +27,17 @@
 (* malloc allocator (here: the failable one), so the latter is not asked.  *)
 (* cpputest_malloc/calloc/strdup/strndup each perform exactly one C        *)
 (* allocation and return NULL exactly when it fails.                       *)
+(* The simulation is a detour around the test's malloc allocator, whichever *)
+(* that is: `sel' = the malloc allocator the test has installed (the        *)
+(* failable one of part 1, or the plain standard one that never fails;      *)
+(* Install changes it, outside the simulation).  The allocator that serves  *)
+(* a C allocation is Current: the null allocator while out of memory,       *)
+(* otherwise `sel'.  However often and by whichever door the simulation was *)
+(* entered (set_out_of_memory, countdown(0), a countdown expiring, any of   *)
+(* them again while already out of memory), set_not_out_of_memory ends it:  *)
+(* the allocator in place before it serves the allocations again; when the  *)
+(* simulation was never entered, it has nothing to put back and the test's  *)
+(* allocator stays.                                                         *)
 (*                                                                         *)
 (* Part 3: the malloc statistics of the C interface.  cpputest_malloc_get_   *)
 (* count returns the number of C allocations (successful or not) since     *)
@@ -46,25 +57,30 @@ CONSTANTS Locs,        \* source locations (naturals >= 1)
           Countdowns,  \* countdown values (naturals) explored by the model; -1 (no countdown) is always explored
           MaxAllocs,   \* bound on allocations per clear period in the model
           MaxPending,  \* bound on simultaneously pending designations in the model
-          MaxCount     \* bound on the malloc statistics counter in the model
+          MaxCount,    \* bound on the malloc statistics counter in the model
+          Allocators   \* the malloc allocators the test may install: a subset of {"failable", "plain"} containing "failable" (the initial one)
 
 VARIABLES pending, count,          \* failable allocator, implementation-shaped
           todo, lc,                \* failable allocator, textbook ghost
           cd, oom,                 \* C interface: countdown (-1 = none), out of memory
+          sel,                     \* C interface: the malloc allocator the test has installed ("failable" | "plain")
           cn, cseen, forced,       \* C interface, ghost: argument of the last countdown, C allocations since, oom forced otherwise
           mc,                      \* C interface: malloc statistics, C allocations since the last count reset
           last
 
 fvars == <<pending, count, todo, lc>>
-cvars == <<cd, oom, cn, cseen, forced, mc>>
-injvars == <<pending, count, todo, lc, cd, oom, cn, cseen, forced>>
-vars == <<pending, count, todo, lc, cd, oom, cn, cseen, forced, mc, last>>
+cvars == <<cd, oom, sel, cn, cseen, forced, mc>>
+injvars == <<pending, count, todo, lc, cd, oom, sel, cn, cseen, forced>>
+vars == <<pending, count, todo, lc, cd, oom, sel, cn, cseen, forced, mc, last>>
 
 CFns == {"malloc", "calloc", "strdup", "strndup"}
+ASSUME "failable" \in Allocators /\ Allocators \subseteq {"failable", "plain"}
+\* the allocator that serves the next C allocation
+Current == IF oom THEN "null" ELSE sel
 Outcome(op, res, want) == [op |-> op, res |-> res, want |-> want]
 
 Init == /\ pending = <<>> /\ count = 0 /\ todo = {} /\ lc = [x \in Locs |-> 0]
-        /\ cd = -1 /\ oom = FALSE /\ cn = -1 /\ cseen = 0 /\ forced = FALSE /\ mc = 0
+        /\ cd = -1 /\ oom = FALSE /\ sel = "failable" /\ cn = -1 /\ cseen = 0 /\ forced = FALSE /\ mc = 0
         /\ last = Outcome("init", "none", FALSE)
 
 -----------------------------------------------------------------------------
@@ -73,14 +89,14 @@ FailNumber(n) ==
     /\ pending' = <<[g |-> TRUE, loc |-> 0, n |-> n, seen |-> 0]>> \o pending
     /\ todo' = todo \cup {[g |-> TRUE, loc |-> 0, target |-> n]}
     /\ last' = Outcome("failnum", "none", FALSE)
-    /\ UNCHANGED <<count, lc, cd, oom, cn, cseen, forced, mc>>
+    /\ UNCHANGED <<count, lc, cd, oom, sel, cn, cseen, forced, mc>>
 
 \* failNthAllocAt(n, loc): the n-th allocation made at loc from now on must fail
 FailAt(loc, n) ==
     /\ pending' = <<[g |-> FALSE, loc |-> loc, n |-> n, seen |-> 0]>> \o pending
     /\ todo' = todo \cup {[g |-> FALSE, loc |-> loc, target |-> lc[loc] + n]}
     /\ last' = Outcome("failat", "none", FALSE)
-    /\ UNCHANGED <<count, lc, cd, oom, cn, cseen, forced, mc>>
+    /\ UNCHANGED <<count, lc, cd, oom, sel, cn, cseen, forced, mc>>
 
 \* the pending designations that name the next allocation, made at loc
 Matching(loc) == { i \in 1..Len(pending) :
@@ -106,7 +122,7 @@ Alloc(loc, C) == FAlloc(loc, C, "alloc") /\ UNCHANGED cvars
 \* checkAllFailedAllocsWereDone: fails the test when a designation is still pending
 CheckDone ==
     /\ last' = Outcome("checkdone", IF pending # <<>> THEN "reported" ELSE "ok", todo # {})
-    /\ UNCHANGED <<pending, count, todo, lc, cd, oom, cn, cseen, forced, mc>>
+    /\ UNCHANGED <<pending, count, todo, lc, cd, oom, sel, cn, cseen, forced, mc>>
 
 \* clearFailedAllocs: forget every designation, restart the numbering
 Clear ==
@@ -120,24 +136,32 @@ Countdown(n) ==
     /\ cd' = n /\ oom' = (oom \/ n = 0)
     /\ cn' = n /\ cseen' = 0 /\ forced' = oom
     /\ last' = Outcome("countdown", "none", FALSE)
-    /\ UNCHANGED <<fvars, mc>>
+    /\ UNCHANGED <<fvars, sel, mc>>
 SetOOM ==
     /\ oom' = TRUE /\ forced' = TRUE /\ last' = Outcome("setoom", "none", FALSE)
-    /\ UNCHANGED <<pending, count, todo, lc, cd, cn, cseen, mc>>
-\* cpputest_malloc_set_not_out_of_memory: the injection is cleared, the test's allocator is back
+    /\ UNCHANGED <<pending, count, todo, lc, cd, sel, cn, cseen, mc>>
+\* cpputest_malloc_set_not_out_of_memory: the injection is cleared, the test's allocator (sel, untouched) is back
 SetNotOOM ==
     /\ oom' = FALSE /\ cd' = -1 /\ cn' = -1 /\ cseen' = 0 /\ forced' = FALSE
     /\ last' = Outcome("setnotoom", "none", FALSE)
-    /\ UNCHANGED <<fvars, mc>>
+    /\ UNCHANGED <<fvars, sel, mc>>
+\* setCurrentMallocAllocator(a) / setCurrentMallocAllocatorToDefault: the test installs its malloc allocator.
+\* Outside the simulation only: what installing an allocator over the null allocator means is left open.
+Install(a) ==
+    /\ ~oom /\ sel' = a
+    /\ last' = Outcome("install", "none", FALSE)
+    /\ UNCHANGED <<fvars, cd, oom, cn, cseen, forced, mc>>
 
 \* cpputest_malloc / calloc / strdup / strndup at loc: one C allocation
 CAlloc(fn, loc, C) ==
     LET cd2 == IF cd > 0 THEN cd - 1 ELSE cd
         oom2 == oom \/ (cd > 0 /\ cd2 = 0) IN
-    /\ cd' = cd2 /\ oom' = oom2 /\ cseen' = cseen + 1 /\ mc' = mc + 1 /\ UNCHANGED <<cn, forced>>
+    /\ cd' = cd2 /\ oom' = oom2 /\ cseen' = cseen + 1 /\ mc' = mc + 1 /\ UNCHANGED <<sel, cn, forced>>
     /\ IF oom2 THEN /\ last' = Outcome(fn, "null", forced \/ (cn >= 0 /\ cseen + 1 >= cn))
                     /\ UNCHANGED fvars
-               ELSE FAlloc(loc, C, fn)
+               ELSE IF sel = "failable" THEN FAlloc(loc, C, fn)
+               ELSE /\ C = {} /\ last' = Outcome(fn, "ok", FALSE)      \* the plain allocator: the designations are not asked
+                    /\ UNCHANGED fvars
 
 \* cpputest_malloc_count_reset: the statistics restart; the injection is not touched
 CountReset ==
@@ -153,6 +177,7 @@ Next == \/ \E n \in Ns : Len(pending) < MaxPending /\ (FailNumber(n) \/ \E x \in
         \/ CheckDone \/ Clear
         \/ \E n \in Countdowns \cup {-1} : Countdown(n)
         \/ SetOOM \/ SetNotOOM
+        \/ \E a \in Allocators : Install(a)
         \/ CountReset \/ GetCount
         \/ \E f \in CFns, x \in Locs : count < MaxAllocs /\ cseen < MaxAllocs /\ mc < MaxCount /\ \E C \in SUBSET Matching(x) : CAlloc(f, x, C)
 
@@ -161,7 +186,7 @@ Spec == Init /\ [][Next]_vars
 -----------------------------------------------------------------------------
 \* Properties (C15)
 AllocOps == {"alloc"} \cup CFns
-TypeOK == /\ count \in Nat /\ cd \in Int /\ oom \in BOOLEAN /\ forced \in BOOLEAN /\ cseen \in Nat /\ mc \in Nat
+TypeOK == /\ count \in Nat /\ cd \in Int /\ oom \in BOOLEAN /\ sel \in Allocators /\ forced \in BOOLEAN /\ cseen \in Nat /\ mc \in Nat
           /\ \A i \in 1..Len(pending) : pending[i].seen \in Nat
           /\ last.res \in {"none", "ok", "null", "reported"}
 \* exactly the designated allocations fail: the verdict of every allocation is the textbook one
@@ -178,7 +203,11 @@ ClearRestores == last.op = "clear" => pending = <<>> /\ todo = {} /\ count = 0
 \* the countdown: the n-th C allocation after it and all later ones are out of memory, the earlier ones are not
 CountdownFires == (cn >= 0 /\ cseen >= cn) => oom
 CountdownNotEarly == (cn > 0 /\ cseen < cn /\ ~forced) => ~oom
-NotOomRestores == last.op = "setnotoom" => ~oom /\ cd = -1
+NotOomRestores == last.op = "setnotoom" => ~oom /\ cd = -1 /\ Current = sel
+\* the simulation is a detour: entering it (by any door, any number of times) and leaving it never changes which allocator the test has installed,
+\* and outside it a C allocation is served by that allocator - the plain one never fails, the failable one fails exactly its designated allocations
+SimulationKeepsAllocator == [][last'.op \in ({"countdown", "setoom", "setnotoom"} \cup CFns) => sel' = sel]_vars
+ServedByInstalled == [][(last'.op \in CFns /\ ~oom') => (IF sel = "plain" THEN last'.res = "ok" /\ UNCHANGED fvars ELSE count' = count + 1)]_vars
 \* the statistics count every C allocation and nothing else; reading / resetting them does not move the injection
 CountResetZeroes == last.op = "countreset" => mc = 0
 CountsCAllocs == [][mc' = IF last'.op \in CFns THEN mc + 1 ELSE IF last'.op = "countreset" THEN 0 ELSE mc]_vars
